@@ -180,6 +180,7 @@ func main() {
 		}
 		fmt.Printf("PARTIAL RUN: -obl selects %d of %d obligations\n", len(sel), len(all))
 		all = sel
+		partialRun = true
 	}
 	dischargeAll(p, all, cfg)
 	if *verbose {
@@ -431,7 +432,14 @@ func (r *Report) finish(out string, start time.Time, verbose bool) {
 	if violations > 0 {
 		exit(1)
 	}
+	if partialRun {
+		fmt.Println("PARTIAL RUN (-obl): not a proof; exit status 3")
+		exit(3)
+	}
 }
+
+// partialRun: set by the authoring flag -obl (only a subset of the obligations was discharged)
+var partialRun bool
 
 // witnessStillFails replays the recorded witness of a known finding against the
 // real code (in-package test injected with go test -overlay): the finding only
